@@ -1,12 +1,34 @@
 /-
-  Line-protocol handlers for C10.  `handle` receives the tokens after the property id.
+  Line-protocol handlers for C10 (the grammar is read-only).  The grammar observables the
+  implementation shows AFTER a history of operations are compared with the model's analysis of
+  the (unchanged) class declarations; the retry loop's state model is exercised directly.
 -/
 import GEVerif.Model.Sexp
+import GEVerif.Model.GrammarState
+import GEVerif.Drive.C05
 
 namespace GEVerif.Drive.C10
-open GEVerif Sexp
+open GEVerif Sexp GEVerif.Drive GEVerif.GState
+
+def parseAlts (s : Sexp) : Option (List (Nat × List Nat)) := do
+  let xs ← s.asList?
+  xs.mapM fun
+    | list [k, v] => do pure (← k.asNat?, ← v.asNats?)
+    | _ => none
 
 def handle : List Sexp → Option Sexp
-  | _ => none
+  -- (retry alts sym (failing productions) (choices…)) → chosen production and grammar afterwards
+  | [atom "retry", alts, sym, failing, choices] => do
+      let g : G := { alts := ← parseAlts alts }
+      let failing ← failing.asNats?
+      let choices ← choices.asNats?
+      let att : Attempt := fun p => !failing.contains p
+      -- the k-th call of the chooser returns choices[k]; the loop shrinks the list by one per call
+      let n := (lookup (← sym.asNat?) g.alts).length
+      let ch : Chooser := fun prods => choices.getD (n - prods.length) 0
+      let (r, g') := retryCopy att ch (← sym.asNat?) g
+      pure (list [match r with | some p => ofNat p | none => atom "none",
+                  list (g'.alts.map fun (k, v) => list [ofNat k, ofNats v])])
+  | rest => C05.handle rest
 
 end GEVerif.Drive.C10
